@@ -530,7 +530,7 @@ pub struct SwapMutation {
 impl SwapMutation {
     pub fn from_params(num_swap: u32) -> ExecResult<Self> {
         ensure!(
-            num_swap > 2,
+            num_swap >= 2,
             "at least two indices need to be swapped, while {} was provided",
             num_swap
         );
@@ -561,7 +561,7 @@ where
 
         for solution in populations.current_mut().as_solutions_mut() {
             ensure!(
-                num_swap < solution.len(),
+                num_swap <= solution.len(),
                 "more than {} swaps are not possible on a solution of length {}",
                 num_swap,
                 solution.len()
